@@ -1,8 +1,8 @@
 (* Model of python/eups/distrib/server.py (C18):
      TaggedProductList.addProduct / read / write / getProducts      (lines 1387-1518)
      Dependency.__init__                                             (lines 1537-1555)
-     Mapping.add / _exists / apply / _apply / inverse                (lines 1575-1657)
-     Manifest.read / write / remapEntries                            (lines 1768-1890, 1912-1987)
+     Mapping.add / _exists / apply / _apply / merge / inverse / noReinstall / __str__
+     Manifest.read / write / remapEntries / _readRemapFile
    Executable definitions only.
 
    Text is modelled at two levels.  Level A: a file is a str; [lines_of] is python text-mode
@@ -11,7 +11,11 @@
 
    The first argument [fx] of the functions that touch the two repaired one-token defects
    selects the code: true = repaired (Manifest.write tests -if flavor-, Dependency assigns
-   distId = None), false = the pinned tree (-if not flavor-, -distId == None-). *)
+   distId = None), false = the pinned tree (-if not flavor-, -distId == None-).
+
+   Mapping and the remap file reader follow the code with the four repairs proposed in
+   proposed_fixes/C18-*.diff (deletion rows, flavor rows before generic rows, row-wise merge, the mode
+   of a remap line); the definitions whose name ends in _pinned follow the tree before them. *)
 From Eupsv Require Import Base.Base.
 
 (* string constants, computed so that the extracted code does not mention Coq's string type *)
@@ -39,6 +43,12 @@ Definition k_any : str := Eval compute in lit "any".
 Definition k_version_list_version : str := Eval compute in lit " version list. Version ".
 Definition k_product_flavor_version : str := Eval compute in lit "#product             flavor     version".
 Definition k_noreinstall : str := Eval compute in lit "noreinstall".
+Definition k_verbose : str := Eval compute in lit "verbose".
+Definition k_cap_true : str := Eval compute in lit "True".
+Definition k_cap_false : str := Eval compute in lit "False".
+Definition k_cap_any : str := Eval compute in lit "Any".
+Definition k_dummy : str := Eval compute in lit "dummy".
+Definition k_4sp : str := Eval compute in lit "    ".
 
 (* ------------------------------------------------------------------ characters *)
 
@@ -422,7 +432,9 @@ Definition tl_read (t : tlist) (text : str) : res tlist := tl_read_lines t (line
 
 (* ------------------------------------------------------------------ Mapping *)
 
-Notation vmap := (amap (str * str)).     (* inVersion -> (outProduct, outVersion) *)
+(* a row of the table: the product and version to use instead; no version = remove the entry *)
+Notation mval := (str * option str)%type.
+Notation vmap := (amap mval).            (* inVersion -> (outProduct, outVersion) *)
 Notation pmap := (amap vmap).            (* inProduct -> ... *)
 Notation fmap := (amap pmap).            (* flavor -> ... *)
 
@@ -433,16 +445,17 @@ Definition empty_mapping : mapping := mkMapping [] [].
 Definition oget {V} (k : str) (m : amap (amap V)) : amap V :=
   match alookup k m with Some x => x | None => [] end.
 
+(* -if not outVersion: outVersion = None- *)
+Definition out_version (o : option str) : option str :=
+  match o with Some (c :: w) => Some (c :: w) | _ => None end.
+
 (* the body of Mapping.add once the dictionary has been chosen *)
 Definition fm_add (fm : fmap) (inP inV outP : str) (outV : option str) (fl : str)
            (overwrite : bool) : fmap :=
   let pm := oget fl fm in
   let vm := oget inP pm in
   if negb overwrite && amem inV vm then aset fl (aset inP vm pm) fm
-  else match outV with
-       | Some (c :: w) => aset fl (aset inP (aset inV (outP, c :: w) vm) pm) fm
-       | _ => aset fl (aset inP (aremove inV vm) pm) fm
-       end.
+  else aset fl (aset inP (aset inV (outP, out_version outV) vm) pm) fm.
 
 Definition is_noreinstall (o : option str) : bool :=
   match o with
@@ -468,49 +481,74 @@ Definition m_exists1 (m : mapping) (p v fl : str) : bool :=
                end
   end.
 
-(* Mapping._apply: the version is None when the product is to be removed *)
-Definition m_apply1 (m : mapping) (p v fl : str) : str * option str :=
+(* Mapping._apply: the row for the version, else the row for any; the version is None when the
+   entry is to be removed *)
+Definition m_apply1 (m : mapping) (p v fl : str) : mval :=
   match alookup fl (mp_map m) with
   | None => (p, Some v)
   | Some pm =>
       match alookup p pm with
       | None => (p, Some v)
-      | Some [] => (p, None)
       | Some vm =>
           match alookup v vm with
-          | Some (q, w) => (q, Some w)
+          | Some r => r
           | None => match alookup s_any vm with
-                    | Some (q, w) => (q, Some w)
+                    | Some r => r
                     | None => (p, Some v)
                     end
           end
       end
   end.
 
-Definition same_pv (r : str * option str) (p v : str) : bool :=
-  match r with
-  | (q, Some w) => str_eqb q p && str_eqb w v
-  | (_, None) => false
+(* Mapping.apply: the generic table is consulted only when the table of the flavor has no row for
+   the entry *)
+Definition m_apply (m : mapping) (p v fl : str) : mval :=
+  if negb (str_eqb fl s_generic) && negb (m_exists1 m p v fl || m_exists1 m p s_any fl)
+  then m_apply1 m p v s_generic
+  else m_apply1 m p v fl.
+
+(* Mapping.noReinstall(product, version, flavor): python truth value of the answer *)
+Definition m_noreinstall (m : mapping) (p v fl : str) : bool :=
+  match alookup fl (mp_nore m) with
+  | None | Some [] => false
+  | Some pm => match alookup p pm with
+               | None => false
+               | Some vm => amem v vm
+               end
   end.
 
-(* Mapping.apply *)
-Definition m_apply (m : mapping) (p v fl : str) : str * option str :=
-  let r := m_apply1 m p v fl in
-  if negb (str_eqb fl s_generic) && same_pv r p v then m_apply1 m p v s_generic else r.
+(* Mapping.merge(other, overwrite): row by row, the three levels created on demand *)
+Definition vm_merge (rows o : vmap) (overwrite : bool) : vmap :=
+  fold_left (fun rows e => if negb overwrite && amem (fst e) rows then rows else aset (fst e) (snd e) rows) o rows.
 
-(* the triple loop of Mapping.inverse visits these rows in this order:
+Definition pm_merge (s o : pmap) (overwrite : bool) : pmap :=
+  fold_left (fun s e => aset (fst e) (vm_merge (oget (fst e) s) (snd e) overwrite) s) o s.
+
+Definition fm_merge (s o : fmap) (overwrite : bool) : fmap :=
+  fold_left (fun s e => match snd e with
+                        | [] => s
+                        | _ => aset (fst e) (pm_merge (oget (fst e) s) (snd e) overwrite) s
+                        end) o s.
+
+Definition m_merge (m o : mapping) (overwrite : bool) : mapping :=
+  mkMapping (fm_merge (mp_map m) (mp_map o) overwrite) (fm_merge (mp_nore m) (mp_nore o) overwrite).
+
+(* the triple loop of Mapping.inverse and of Mapping.__str__ visits these rows in this order:
    (flavor, inProduct, inVersion, outProduct, outVersion) *)
-Definition mrow := (str * str * str * str * str)%type.
+Definition mrow := (str * str * str * str * option str)%type.
 
-Definition m_rows (m : mapping) : list mrow :=
+Definition fm_rows (fm : fmap) : list mrow :=
   flat_map (fun fe => match fe with (f, pm) =>
     flat_map (fun pe => match pe with (p, vm) =>
-      map (fun ve => match ve with (v, (q, w)) => (f, p, v, q, w) end) vm end) pm end) (mp_map m).
+      map (fun ve => match ve with (v, (q, w)) => (f, p, v, q, w) end) vm end) pm end) fm.
+
+Definition m_rows (m : mapping) : list mrow := fm_rows (mp_map m).
 
 Definition inv_step (acc : res mapping) (r : mrow) : res mapping :=
   match acc, r with
   | Err e, _ => Err e
-  | Ok inv, (f, p, v, q, w) =>
+  | Ok inv, (f, p, v, q, None) => Ok inv          (* a removal has no inverse *)
+  | Ok inv, (f, p, v, q, Some w) =>
       if m_exists1 inv q w f then Err Refused      (* RuntimeError: not one-to-one *)
       else Ok (m_add inv q w (Some p) (Some v) f true)
   end.
@@ -519,11 +557,177 @@ Definition inv_step (acc : res mapping) (r : mrow) : res mapping :=
 Definition m_inverse (m : mapping) : res mapping :=
   fold_left inv_step (m_rows m) (Ok empty_mapping).
 
+(* Mapping.__str__: one line per row of the remap table (the noReinstall rows are not printed) *)
+Definition row_line (r : mrow) : str :=
+  match r with
+  | (f, p, v, q, w) =>
+      p ++ ":"%char :: v ++ k_4sp ++
+      (match w with None => k_cap_none | Some w' => q ++ ":"%char :: w' end) ++ k_4sp ++ f
+  end.
+
+Definition m_print (m : mapping) : str := unlines (map row_line (m_rows m)).
+
+(* ------------------------------------------------------------------ Manifest._readRemapFile *)
+
+Definition rstrip (x : str) : str := rev (dropw (rev x)).
+Definition strip (x : str) : str := rstrip (dropw x).
+
+(* the text before the first hash sign, when there is one *)
+Fixpoint before_hash (x : str) : option str :=
+  match x with
+  | [] => None
+  | c :: r => if ascii_eqb c c_hash then Some []
+              else match before_hash r with Some b => Some (c :: b) | None => None end
+  end.
+
+(* re.sub of optional space, a hash sign and the rest of the line by nothing *)
+Definition cut_comment (x : str) : str :=
+  match before_hash x with Some b => rstrip b | None => x end.
+
+Definition c_lbr : ascii := "["%char.
+Definition c_rbr : ascii := "]"%char.
+Definition c_colon : ascii := ":"%char.
+Definition c_eq : ascii := "="%char.
+
+Fixpoint span_until (d : ascii) (x : str) : str * str :=
+  match x with
+  | [] => ([], [])
+  | c :: r => if ascii_eqb c d then ([], x) else let (a, b) := span_until d r in (c :: a, b)
+  end.
+
+(* re.search of: start, left bracket, one or more characters other than right bracket, right bracket,
+   optional space, the rest: the mode and the rest of the line *)
+Definition parse_mode_prefix (x : str) : option (str * str) :=
+  match x with
+  | c :: r =>
+      if ascii_eqb c c_lbr then
+        match span_until c_rbr r with
+        | (_ :: _ as g, _ :: rest) => Some (g, dropw rest)
+        | _ => None
+        end
+      else None
+  | [] => None
+  end.
+
+(* re.search of: start, optional space, verbose, optional space, equals sign, optional space, one of
+   True False 0 1 *)
+Definition is_verbose_line (x : str) : bool :=
+  match strip_prefix k_verbose (dropw x) with
+  | None => false
+  | Some r =>
+      match dropw r with
+      | c :: r2 =>
+          ascii_eqb c c_eq &&
+          (let r3 := dropw r2 in
+           starts_with k_cap_true r3 || starts_with k_cap_false r3 ||
+           starts_with ["0"%char] r3 || starts_with ["1"%char] r3)
+      | [] => false
+      end
+  end.
+
+(* re.search of: start, one or more characters other than a colon, optionally a colon and the rest;
+   None = no match (the code then fails with AttributeError) *)
+Definition split_colon (w : str) : option (str * option str) :=
+  match span_until c_colon w with
+  | ([], _) => None
+  | (a, []) => Some (a, None)
+  | (a, _ :: rest) => Some (a, Some rest)
+  end.
+
+(* one line of a remap table = one call of Mapping.add *)
+Record row := mkRow {
+  r_inP : str; r_inV : str; r_outP : option str; r_outV : option str; r_fl : str }.
+
+(* the fields of a line: product[:version]  [[outProduct:]outVersion]  [flavor] *)
+Definition row_of_words (vals : list str) : res (option row) :=
+  match vals with
+  | [] => Ok None
+  | v0 :: rest =>
+      match split_colon v0 with
+      | None => Err Crash
+      | Some (product, inv0) =>
+          let inversion :=
+            match inv0 with
+            | None => s_any
+            | Some s => if str_eqb s s_any || str_eqb s k_cap_any then s_any else s
+            end in
+          let flavor := match rest with _ :: f :: _ => f | _ => s_generic end in
+          match rest with
+          | [] => Ok (Some (mkRow product inversion None None flavor))
+          | v1 :: _ =>
+              match split_colon v1 with
+              | None => Err Crash
+              | Some (q, w0) =>
+                  let outp := if truthy w0 then q else product in
+                  let outv := if truthy w0 then w0 else Some q in
+                  let outv' := match outv with
+                               | Some w => if str_eqb w s_any || str_eqb w k_low_none || str_eqb w k_cap_none
+                                           then None else Some w
+                               | None => None
+                               end in
+                  Ok (Some (mkRow product inversion (Some outp) outv' flavor))
+              end
+          end
+      end
+  end.
+
+(* does a line apply?  strict = the repaired test (a prefixed line applies when its mode is the mode
+   asked for); not strict = the pinned test (it also applies when no mode is asked for) *)
+Definition select_line (strict : bool) (mode : option str) (l : str) : option str :=
+  match parse_mode_prefix l with
+  | Some (g, rest) =>
+      let same := match mode with Some m => str_eqb m g | None => false end in
+      if strict then (if same then Some rest else None)
+      else (if truthy mode && negb same then None else Some rest)
+  | None => if truthy mode then None else Some l
+  end.
+
+Definition remap_line (strict : bool) (mode : option str) (line : str) : res (option row) :=
+  match cut_comment (strip line) with
+  | [] => Ok None
+  | l1 =>
+      match select_line strict mode l1 with
+      | None => Ok None
+      | Some l2 => if is_verbose_line l2 then Ok None else row_of_words (words l2)
+      end
+  end.
+
+Definition add_row_ow (overwrite : bool) (m : mapping) (r : row) : mapping :=
+  m_add m (r_inP r) (r_inV r) (r_outP r) (r_outV r) (r_fl r) overwrite.
+
+Fixpoint read_remap_lines (strict overwrite : bool) (mode : option str) (ls : list str) (m : mapping)
+  : res mapping :=
+  match ls with
+  | [] => Ok m
+  | l :: ls' =>
+      match remap_line strict mode l with
+      | Err e => Err e
+      | Ok None => read_remap_lines strict overwrite mode ls' m
+      | Ok (Some r) => read_remap_lines strict overwrite mode ls' (add_row_ow overwrite m r)
+      end
+  end.
+
+(* Manifest._readRemapFile(dirname, mapping, overwrite, mode) on the text of the file *)
+Definition read_remap (overwrite : bool) (mode : option str) (text : str) (m : mapping) : res mapping :=
+  read_remap_lines true overwrite mode (lines_of text) m.
+
+(* the pinned tree: remapEntries passes its mode in the place of overwrite, so the reader sees no mode,
+   applies every line, and lets later rows override earlier ones exactly when a mode was given *)
+Definition read_remap_pinned (mode : option str) (text : str) (m : mapping) : res mapping :=
+  read_remap_lines false (truthy mode) None (lines_of text) m.
+
+Fixpoint read_remap_files (mode : option str) (texts : list str) (m : mapping) : res mapping :=
+  match texts with
+  | [] => Ok m
+  | t :: ts => match read_remap true mode t m with
+               | Ok m' => read_remap_files mode ts m'
+               | Err e => Err e
+               end
+  end.
+
 (* ------------------------------------------------------------------ Manifest.remapEntries *)
 
-(* with hooks.customisationDirs empty: no manifest.remap files are merged in; fl is the value
-   of eups.flavor(); the auto-declaration of products whose new version is -dummy- is not
-   modelled *)
+(* fl is the value of eups.flavor() *)
 Definition remap_dep (fx : bool) (m : mapping) (fl : str) (d : dep) : list dep :=
   match m_apply m (d_product d) (d_version d) fl with
   | (_, None) => []
@@ -534,3 +738,101 @@ Definition remap_dep (fx : bool) (m : mapping) (fl : str) (d : dep) : list dep :
 
 Definition remap (fx : bool) (m : mapping) (fl : str) (ds : list dep) : list dep :=
   flat_map (remap_dep fx m fl) ds.
+
+(* the products declared on the way: an entry replaced by version dummy of a product of which no
+   such version is known is declared (directory none, table none); known = the products that have
+   a version dummy, a failed declaration is only printed *)
+Fixpoint remap_declares (m : mapping) (fl : str) (known : list str) (ds : list dep) : list str :=
+  match ds with
+  | [] => []
+  | d :: ds' =>
+      match m_apply m (d_product d) (d_version d) fl with
+      | (q, Some w) =>
+          if negb (str_eqb q (d_product d) && str_eqb w (d_version d)) && str_eqb w k_dummy
+             && negb (mem_str q known)
+          then q :: remap_declares m fl (q :: known) ds'
+          else remap_declares m fl known ds'
+      | (_, None) => remap_declares m fl known ds'
+      end
+  end.
+
+(* remapEntries(mapping, mode) with the texts of the manifest.remap files of hooks.customisationDirs:
+   the rows of the files are merged under the rows passed in; the mapping is left in manifest.mapping *)
+Definition remap_entries (fx : bool) (extra : mapping) (texts : list str) (mode : option str)
+           (fl : str) (ds : list dep) : res (mapping * list dep) :=
+  match read_remap_files mode texts empty_mapping with
+  | Err e => Err e
+  | Ok from_files =>
+      let m := m_merge extra from_files false in
+      Ok (m, remap fx m fl ds)
+  end.
+
+(* ------------------------------------------------------------------ the tree before the repairs *)
+
+(* Mapping.add: a removal deletes the key and leaves the (possibly empty) dictionary of the product *)
+Definition fm_add_pinned (fm : fmap) (inP inV outP : str) (outV : option str) (fl : str) : fmap :=
+  let pm := oget fl fm in
+  let vm := oget inP pm in
+  match out_version outV with
+  | Some w => aset fl (aset inP (aset inV (outP, Some w) vm) pm) fm
+  | None => aset fl (aset inP (aremove inV vm) pm) fm
+  end.
+
+Definition add_row_pinned (m : mapping) (r : row) : mapping :=
+  let outP' := match r_outP r with Some (c :: w) => c :: w | _ => r_inP r end in
+  if is_noreinstall (r_outV r) then m
+  else mkMapping (fm_add_pinned (mp_map m) (r_inP r) (r_inV r) outP' (r_outV r) (r_fl r)) (mp_nore m).
+
+(* Mapping._apply: an empty dictionary removes every version *)
+Definition m_apply1_pinned (m : mapping) (p v fl : str) : mval :=
+  match alookup fl (mp_map m) with
+  | None => (p, Some v)
+  | Some pm =>
+      match alookup p pm with
+      | None => (p, Some v)
+      | Some [] => (p, None)
+      | Some vm =>
+          match alookup v vm with
+          | Some r => r
+          | None => match alookup s_any vm with
+                    | Some r => r
+                    | None => (p, Some v)
+                    end
+          end
+      end
+  end.
+
+Definition same_pv (r : mval) (p v : str) : bool :=
+  match r with
+  | (q, Some w) => str_eqb q p && str_eqb w v
+  | (_, None) => false
+  end.
+
+(* Mapping.apply: the generic table is consulted whenever the flavor table returns the entry unchanged;
+   old26 selects the pinned _apply as well *)
+Definition m_apply_pinned (old26 : bool) (m : mapping) (p v fl : str) : mval :=
+  let ap := if old26 then m_apply1_pinned else m_apply1 in
+  let r := ap m p v fl in
+  if negb (str_eqb fl s_generic) && same_pv r p v then ap m p v s_generic else r.
+
+Definition remap_with (ap : mapping -> str -> str -> str -> mval) (m : mapping) (fl : str) (ds : list dep)
+  : list dep :=
+  flat_map (fun d => match ap m (d_product d) (d_version d) fl with
+                     | (_, None) => []
+                     | (q, Some w) =>
+                         if str_eqb q (d_product d) && str_eqb w (d_version d) then [d]
+                         else [new_dep true q w None None None None false false []]
+                     end) ds.
+
+(* Mapping.merge: the keys of the first level (flavors) are taken for products and those of the second
+   (products) for versions: the unit that is kept or replaced is the whole dictionary of a product *)
+Definition fm_merge_pinned (s o : fmap) (overwrite : bool) : fmap :=
+  fold_left (fun s fe =>
+    fold_left (fun s pe =>
+      let s1 := if amem (fst fe) s then s else aset (fst fe) [] s in
+      if negb overwrite && amem (fst pe) (oget (fst fe) s1) then s1
+      else aset (fst fe) (aset (fst pe) (snd pe) (oget (fst fe) s1)) s1) (snd fe) s) o s.
+
+Definition m_merge_pinned (m o : mapping) (overwrite : bool) : mapping :=
+  mkMapping (fm_merge_pinned (mp_map m) (mp_map o) overwrite)
+            (fm_merge_pinned (mp_nore m) (mp_nore o) overwrite).
